@@ -28,8 +28,13 @@ Fixpoint bag_eqb (a b : list row) : bool :=
   | x :: a' => match bag_remove x b with Some b' => bag_eqb a' b' | None => false end
   end.
 
+(* a step is a DML statement or the creation of a unique index over the existing rows *)
+Inductive action :=
+| ADml (st : stmt)
+| AAddUnique (cols : list nat) (pls : list N).
+
 (* observed: true = the statement succeeded, false = it failed with a duplicate-key error *)
-Definition step : Type := (stmt * bool * list row * bool)%type.
+Definition step : Type := (action * bool * list row * bool)%type.
 Definition case : Type := (schema * list step)%type.
 
 Definition kind_ok (o : outcome) (succeeded : bool) : bool :=
@@ -39,16 +44,28 @@ Definition kind_ok (o : outcome) (succeeded : bool) : bool :=
   | OFuel => false
   end.
 
-Definition step_ok (sch : schema) (pre : list row) (s : step) : bool :=
-  let '(st, succeeded, post, ordered) := s in
-  let '(o, rows') := impl_exec sch pre st in
-  kind_ok o succeeded && (if ordered then rows_eqb rows' post else bag_eqb rows' post).
+Definition rows_ok (ordered : bool) (rows' post : list row) : bool :=
+  if ordered then rows_eqb rows' post else bag_eqb rows' post.
+
+(* result: does the model agree, and the schema in effect afterwards *)
+Definition step_ok (sch : schema) (pre : list row) (s : step) : bool * schema :=
+  let '(a, succeeded, post, ordered) := s in
+  match a with
+  | ADml st =>
+      let '(o, rows') := impl_exec sch pre st in
+      (kind_ok o succeeded && rows_ok ordered rows' post, sch)
+  | AAddUnique cols pls =>
+      match ddl_add_unique sch pre cols pls with
+      | Some (sch', rows') => (succeeded && rows_ok ordered rows' post, sch')
+      | None => (negb succeeded && rows_ok ordered pre post, sch)
+      end
+  end.
 
 (* the table starts empty; every step starts from the rows OBSERVED after the previous one *)
 Fixpoint steps_ok (sch : schema) (pre : list row) (steps : list step) : bool :=
   match steps with
   | [] => true
-  | s :: steps' => step_ok sch pre s && steps_ok sch (snd (fst s)) steps'
+  | s :: steps' => let '(b, sch') := step_ok sch pre s in b && steps_ok sch' (snd (fst s)) steps'
   end.
 
 Definition ok (c : case) : bool := let '(sch, steps) := c in steps_ok sch [] steps.
